@@ -72,8 +72,12 @@ class CompleteTaskHandler(StabilizeHandler[CompleteTask]):
         """Inner handle logic to be retried."""
 
         def on_task(stage: StageExecution, task: TaskExecution) -> None:
-            # Idempotency check - only complete tasks that are RUNNING
-            if task.status != WorkflowStatus.RUNNING:
+            # Idempotency check - only complete tasks that are RUNNING. The one
+            # exception is the SKIPPED task StartTaskHandler itself produced for a
+            # disabled SkippableTask: its CompleteTask(SKIPPED) is the only
+            # continuation of the stage and must advance it.
+            skipped_by_start_task = task.status == WorkflowStatus.SKIPPED and message.status == WorkflowStatus.SKIPPED
+            if task.status != WorkflowStatus.RUNNING and not skipped_by_start_task:
                 logger.debug(
                     "Ignoring CompleteTask for %s (%s) - already %s",
                     task.name,
